@@ -76,6 +76,23 @@ pub fn compare(exp: &Expected, rec: &TxRec) -> Vec<(String, String)> {
     if got_inputs != exp.inputs || rec.inputs.len() != exp.inputs.len() {
         d.push(("inputs".to_string(), format!("expected {} inputs {:?}, got {:?}", exp.inputs.len(), short_refs(&exp.inputs), short_refs(&got_inputs))));
     }
+    // redeemers: the data written on inputs and withdrawals, once per guarded item, and nothing that was not written
+    {
+        let mut got: Vec<(u64, String)> = rec
+            .redeemers
+            .iter()
+            .filter(|r| r.tag == 0 || r.tag == 3)
+            .map(|r| (r.tag, plutus::read_bytes(&r.data_raw).map(|d| d.to_string()).unwrap_or_else(|e| format!("undecodable: {e}"))))
+            .collect();
+        got.sort();
+        if got != exp.redeemers {
+            d.push(("redeemers".into(), format!("expected spend / reward redeemers {:?}, got {:?}", exp.redeemers, got)));
+        }
+        let mint_reds = rec.redeemers.iter().filter(|r| r.tag == 1).count();
+        if !exp.mint_redeemers_written && mint_reds > 0 {
+            d.push(("redeemers".into(), format!("no mint or burn block carries a redeemer, the witness set has {mint_reds} mint redeemer(s)")));
+        }
+    }
     if rec.outputs.len() != exp.outputs.len() {
         d.push(("outputs.count".into(), format!("expected {} outputs, got {}", exp.outputs.len(), rec.outputs.len())));
     }
@@ -89,6 +106,17 @@ pub fn compare(exp: &Expected, rec: &TxRec) -> Vec<(String, String)> {
         let ga: BTreeMap<(Vec<u8>, Vec<u8>), i128> = g.assets.iter().map(|(k, v)| (k.clone(), v.to_i128().unwrap_or(i128::MIN))).collect();
         if ga != e.assets {
             d.push(("output.assets".into(), format!("output {i}: expected assets {:?}, got {:?}", show_assets(&e.assets), show_assets(&ga))));
+        }
+        // a reference script: #6.24(bytes([language, bytes(script)])) for a published one, none otherwise
+        let want_ref = e.script_ref.as_ref().map(|(lang, script)| {
+            let mut inner = vec![0x82, *lang, 0x40 + script.len() as u8];
+            inner.extend(script);
+            let mut v = vec![0xd8, 0x18, 0x40 + inner.len() as u8];
+            v.extend(inner);
+            v
+        });
+        if want_ref != g.script_ref {
+            d.push(("output.script_ref".into(), format!("output {i}: expected reference script {:?}, got {:?}", want_ref.as_ref().map(hex::encode), g.script_ref.as_ref().map(hex::encode))));
         }
         match (&e.datum, &g.datum_raw) {
             (None, None) => {}
